@@ -116,10 +116,12 @@ var urlConstructs = []urlConstruct{
 // one spelling unit of "scheme:" with its alternatives (index 0 = the plain spelling)
 func unitAlts(c byte) []string {
 	if c == ':' {
-		return []string{":", "\\:", "&colon;", "&#58;", "&#x3a;", "&#x3A;", "&#0058;", "%3A", "%3a"}
+		// the last five are doubly encoded: a reference whose own ampersand is written as a reference (they must stay inert
+		// because the output's &amp;... decodes to the literal text "&colon;", not to a colon)
+		return []string{":", "\\:", "&colon;", "&#58;", "&#x3a;", "&#x3A;", "&#0058;", "%3A", "%3a", "&amp;colon;", "&amp;#58;", "&#38;colon;", "&#x26;#x3a;", "&amp;amp;colon;"}
 	}
 	up := strings.ToUpper(string(c))
-	return []string{string(c), up, fmt.Sprintf("&#%d;", c), fmt.Sprintf("&#x%x;", c), fmt.Sprintf("&#X%X;", up[0]), fmt.Sprintf("%%%02x", c), "\\" + string(c)}
+	return []string{string(c), up, fmt.Sprintf("&#%d;", c), fmt.Sprintf("&#x%x;", c), fmt.Sprintf("&#X%X;", up[0]), fmt.Sprintf("%%%02x", c), "\\" + string(c), fmt.Sprintf("&amp;#%d;", c), fmt.Sprintf("&#38;#x%x;", c)}
 }
 
 var gapAlts = []string{"", "&Tab;", "&NewLine;", "\t", "&#9;", "&#x0a;", "&#13;", "\\\n", "%09"}
